@@ -30,6 +30,9 @@ type ledBatch struct {
 	Event  string            `json:"event"`  // event node name of the device's handler
 	Hidraw string            `json:"hidraw"` // hidraw node the fake controller reports
 	Walks  [][]ledStep       `json:"walks"`
+	// NoWait: do not wait for LED frames (life-cycle scenarios: disconnect while the LED goroutine is
+	// still connecting, bursts of events); frames are then not attributed to steps
+	NoWait bool `json:"nowait"`
 }
 
 type ledStep struct {
@@ -42,9 +45,10 @@ type ledOut struct {
 	MsgIn     []int    `json:"msgin,omitempty"`
 	Frame     [][3]int `json:"frame"`
 	NFrames   int      `json:"nframes"`
-	ReturnMs  int64    `json:"return_ms,omitempty"`
+	ReturnMs  int64    `json:"return_ms"`
 	Leftover  []string `json:"leftover,omitempty"`
 	LedActive bool     `json:"led_active"`
+	NoWait    bool     `json:"nowait"`
 }
 
 func col(c [3]int) openrgb.Color {
@@ -174,8 +178,11 @@ func cmdLed(args []string) error {
 				r.dev.ProcessEvents(r.in)
 				r.done <- ""
 			}()
-			active := waitFrames(srv, 0, 2, 8*time.Second)
-			start := ledOut{stepOut: stepOut{Ev: "start", C: bi + 1, O: [][]int{}, St: r.state()}, Frame: srv.lastFrame(), NFrames: srv.frameCount(),
+			active := false
+			if !b.NoWait {
+				active = waitFrames(srv, 0, 2, 8*time.Second)
+			}
+			start := ledOut{NoWait: b.NoWait, stepOut: stepOut{Ev: "start", C: bi + 1, O: [][]int{}, St: r.state()}, Frame: srv.lastFrame(), NFrames: srv.frameCount(),
 				LedActive: active}
 			if start.Frame == nil {
 				start.Frame = [][3]int{}
@@ -216,7 +223,12 @@ func cmdLed(args []string) error {
 					res.stepOut, ok = r.step(st.devInput)
 					alive = alive && ok
 				}
-				if st.Ev != "disconnect" {
+				res.NoWait = b.NoWait
+				if st.Ev == "sleep" {
+					time.Sleep(time.Duration(st.Raw) * time.Millisecond)
+					continue
+				}
+				if st.Ev != "disconnect" && !b.NoWait {
 					n0 = srv.frameCount()
 					res.LedActive = waitFrames(srv, n0, 2, 2*time.Second)
 				}
